@@ -102,6 +102,15 @@ TEMPLATES = [
     T('ClassDef._bases', 'ClassDef', '_bases', 'arglike',
       lambda n: 'class C' + ('(' + ', '.join(['e0', 'k1=e1', '*e2', '**e3'][:n]) + ')' if n else '') + ': pass',
       lambda j: f'nk{j}=n{j}'),
+    T('arguments._all', 'arguments', '_all', 'argelt', lambda n: 'def f(' + ', '.join(_names(n)) + '): pass',
+      lambda j: f'n{j}'),
+    T('arguments._all.defaults', 'arguments', '_all', 'argelt',
+      lambda n: 'def f(' + ', '.join(f'e{i}={i}' for i in range(n)) + '): pass', lambda j: f'n{j}: int = {j}'),
+    T('arguments._all.mixed', 'arguments', '_all', 'argelt',
+      lambda n: 'def f(' + ', '.join((['e0', '/', 'e1=1', '*e2', 'e3', '**e4'] if n >= 2 else ['e0', '*e2', 'e3', '**e4'])
+                                     [:n + (1 if n >= 2 else 0)]) + '): pass', lambda j: f'n{j}=0'),
+    T('arguments._all.lambda', 'arguments', '_all', 'argelt',
+      lambda n: 'x = lambda' + (' ' if n else '') + ', '.join(_names(n)) + ': 0', lambda j: f'n{j}'),
     T('MatchMapping._all', 'MatchMapping', '_all', 'mmapelt',
       lambda n: 'match m:\n    case {' + ', '.join(f'{i}: e{i}' for i in range(n)) + '}: pass', lambda j: f'10{j}: n{j}'),
     T('MatchClass._attrs', 'MatchClass', '_attrs', 'attrelt',
